@@ -23,6 +23,7 @@ CONSTANTS Domain, MaxObjs, Rich
 
 Kinds == {"C", "S", "P", "H"}
 Times == CASE Domain = "adversarial" -> {"t0", "neg", "p24", "p30", "p31"}
+           [] Domain = "runs" -> {"s1"}
            [] Domain = "realistic" -> {"t0", "s1", "m1", "h3"}
            [] OTHER -> {"t0", "s1"}
 Deltas == CASE Domain = "adversarial" -> {"d0", "d1", "d500", "dbig"}
@@ -31,7 +32,7 @@ Deltas == CASE Domain = "adversarial" -> {"d0", "d1", "d500", "dbig"}
 Poss == CASE Domain = "adversarial" -> {"c", "o", "far", "negfar"}
           [] Domain = "realistic" -> {"c", "o", "edge"}
           [] OTHER -> {"c", "same"}
-Sizes == IF Domain = "degenerate" THEN {"mid"} ELSE {"min", "edge", "mid", "max"}
+Sizes == IF Domain \in {"degenerate", "runs"} THEN {"mid"} ELSE {"min", "edge", "mid", "max"}
 
 (* "stat": a stationary slider (zero length) with 20 spans - all of its nested objects share one timestamp and one position *)
 FirstObjs == {[k |-> q[1], t |-> q[2], p |-> q[3], z |-> q[4]] : q \in {r \in Kinds \X Times \X Poss \X (Sizes \cup {"stat"}) : r[4] = "stat" => r[1] = "S"}}
@@ -40,11 +41,11 @@ NextObjs == {[k |-> q[1], t |-> q[2], p |-> q[3], z |-> q[4]] :
                          r[4] = "stat" => r[1] = "S"}}
 
 Globals == {[bl |-> q[1], sv |-> q[2], tr |-> q[3], ver |-> q[4], diff |-> q[5]] :
-              q \in (IF Domain = "degenerate" THEN {"b500"} ELSE IF Domain = "realistic" THEN (IF Rich THEN {"b300", "b500", "b1000"} ELSE {"b500"})
+              q \in (IF Domain \in {"degenerate", "runs"} THEN {"b500"} ELSE IF Domain = "realistic" THEN (IF Rich THEN {"b300", "b500", "b1000"} ELSE {"b500"})
                      ELSE {"b6", "b500", "b60000"})
-                 \X (IF Domain = "degenerate" THEN {"sv1"} ELSE IF Domain = "realistic" THEN {"sv1", "sv2"}
+                 \X (IF Domain \in {"degenerate", "runs"} THEN {"sv1"} ELSE IF Domain = "realistic" THEN {"sv1", "sv2"}
                      ELSE (IF Rich THEN {"sv1", "sv01", "sv10"} ELSE {"sv1", "sv10"}))
-                 \X (IF Domain = "degenerate" THEN {"tr1"} ELSE IF Domain = "realistic" THEN {"tr1", "tr4"}
+                 \X (IF Domain \in {"degenerate", "runs"} THEN {"tr1"} ELSE IF Domain = "realistic" THEN {"tr1", "tr4"}
                      ELSE (IF Rich THEN {"tr05", "tr1", "tr8"} ELSE {"tr1", "tr8"}))
                  \X (IF Rich THEN {"v5", "v14"} ELSE {"v14"})
                  \X (IF Domain = "adversarial" /\ ~Rich THEN {"d5"} ELSE {"d0", "d5", "d10"})}
